@@ -1856,4 +1856,45 @@ theorem firstBreak_none (s : List Nat) (h : firstBreak s = none) : ∀ x ∈ s, 
         · exact hc'
         · exact ih hj x hx
 
+/-! ### Part L: single-byte codecs (latin-1, cp1252 …) commute with the split -/
+
+theorem consHead_map (g : Nat → Nat) (c : Nat) (x : List (List Nat)) :
+    (consHead c x).map (·.map g) = consHead (g c) (x.map (·.map g)) := by
+  cases x <;> simp [consHead]
+
+/-- a character-by-character decoding `g` that keeps LF, CR and "is a break" commutes with splitlines -/
+theorem aux_map (brk : Nat → Bool) (g : Nat → Nat) (hb : ∀ c, brk (g c) = brk c)
+    (h10 : ∀ c, (g c == 10) = (c == 10)) (h13 : ∀ c, (g c == 13) = (c == 13)) (f : Bool) (s : List Nat) :
+    splitlinesAux brk f (s.map g) = (splitlinesAux brk f s).map (·.map g) := by
+  induction s generalizing f with
+  | nil => simp [aux_nil]
+  | cons c cs ih =>
+    simp only [List.map_cons]
+    rw [aux_cons, aux_cons, h10, h13, hb]
+    by_cases h1 : (f && c == 10) = true
+    · simp only [h1, if_true]; exact ih false
+    · have h1' : (f && c == 10) = false := by simpa using h1
+      simp only [h1', Bool.false_eq_true, if_false]
+      by_cases hc : brk c = true
+      · simp only [hc, if_true, List.map_cons, List.map_nil]
+        rw [ih]
+      · have hc' : brk c = false := by simpa using hc
+        simp only [hc', Bool.false_eq_true, if_false]
+        rw [ih, consHead_map]
+
+theorem lastIs_map (p : Nat → Bool) (g : Nat → Nat) (hp : ∀ c, p (g c) = p c) (l : List Nat) :
+    lastIs p (l.map g) = lastIs p l := by
+  induction l with
+  | nil => rfl
+  | cons c cs ih =>
+    cases cs with
+    | nil => simp [lastIs, hp]
+    | cons d ds =>
+      simp only [List.map_cons] at ih ⊢
+      have e1 : lastIs p (g c :: g d :: List.map g ds) = lastIs p (g d :: List.map g ds) := by
+        simp [lastIs]
+      have e2 : lastIs p (c :: d :: ds) = lastIs p (d :: ds) := by
+        simp [lastIs]
+      rw [e1, e2]; exact ih
+
 end C19
